@@ -130,7 +130,25 @@ Definition obs_dec_back (tab : list hentry) (r : outcome (item nat) jws_err) (si
 Definition jws_run (input : list Z) : list Z :=
   match input with
   | kind :: nt :: r0 =>
-    if (kind =? 7) || (kind =? 8) || (kind =? 9) then [] else   (* storage-backed and real-key rows (Ed25519 bit flips, ECDSA curve / alg table): property oracle only *)
+    if kind =? 7 then
+      (* create_jws: 7 which mask pc <LP payload>: the protected header the options give, or 0 when the compact encoder refuses the payload *)
+      match r0 with
+      | mask :: _ :: r1 =>
+          match take_lp r1 with
+          | Some (payload, _) =>
+              let bit (k : Z) := Z.testbit mask k in
+              let o := {| so_attach_jwk := bit 0; so_b64 := if bit 1 then Some false else None; so_cty := bit 3; so_url := bit 4; so_nonce := bit 5;
+                          so_custom := if bit 8 then Some [101] else None; so_detached := bit 7 |} in
+              let h := create_jws_header o in
+              if negb (enc_compact h) then [0]
+              else if negb (so_detached o) && negb (extract_b64 (Some h)) && negb (charset_ok 0%N (map Z.to_N payload)) then [0]
+              else 1 :: 1 :: zb (h_alg h) :: (match h_b64 h with None => 0 | Some true => 1 | Some false => 2 end) :: (match h_crit h with Some _ => 1 | None => 0 end)
+                   :: put_lp (match h_crit h with Some l => l | None => [] end) ++ put_lp (filter (fun c => mem c (h_common h)) [3; 4; 5; 6; 7; 8; 9; 10; 11; 12; 13])
+                   ++ (match h_custom h with Some _ => 1 | None => 0 end) :: put_lp (match h_custom h with Some l => l | None => [] end)
+          | None => ERR_DECODE end
+      | _ => ERR_DECODE end
+    else
+    if (kind =? 8) || (kind =? 9) then [] else   (* real-key rows (Ed25519 bit flips, ECDSA curve / alg table): property oracle only *)
     match js_take_table (Z.to_nat nt) r0 with
     | None => ERR_DECODE
     | Some (tab, r) =>
